@@ -894,7 +894,8 @@ class Generator:
     def attrs(self, rng, complete=True):
         self.counter += 1
         a = {'atomname': 'A%d' % self.counter, 'atype': rng.choice(ATYPES), 'resname': rng.choice(RESNAMES),
-             'resid': rng.randint(1, 4), 'charge_group': rng.randint(1, 6), 'chain': rng.choice(['A', 'A', 'B'])}
+             'resid': rng.choice([0, 1, 1, 2, 3, 4, 4]), 'charge_group': rng.choice([0, 1, 2, 3, 4, 5, 6]),
+             'chain': rng.choice(['A', 'A', 'B'])}
         r = rng.random()
         if r < 0.5:
             a['charge'] = rng.choice([0.0, 1.0, -1.0, 0.5, -0.25])
